@@ -181,6 +181,19 @@ class Oracle(simcheck.BaseOracle):
         self.closes = 0
         self.client_at = {}   # id(order) -> client of the accepted placement (a later refused request may overwrite order.client, see C02)
 
+    def _note_new(self, market):
+        # replacement orders enter the blotter inside the execution of a replace package (no place action):
+        # their client is the one they carry when first seen there, before any later request can overwrite it
+        if market is not None:
+            for o in market.blotter:
+                self.client_at.setdefault(id(o), o.client)
+
+    def in_callback(self, run, strategy, market, market_book):
+        self._note_new(market)
+
+    def before_action(self, run, sidx, market, action, order, state):
+        self._note_new(market)
+
     def on_action(self, run, sidx, market, a, result, order):
         if a[0] == "place" and result == "True" and order is not None:
             self.client_at[id(order)] = order.client
@@ -201,6 +214,10 @@ class Oracle(simcheck.BaseOracle):
             if k not in status_of or not o.simulated:
                 continue
             fills = [(frac(m[1]), frac(m[2])) for m in o.simulated.matched]
+            if o.order_type.ORDER_TYPE.name == "MARKET_ON_CLOSE" and o.side == "LAY" and o.size_matched:
+                # the size of a starting-price lay IS liability / (price - 1); a non-runner scales the liability (C09) and the
+                # size with it, while a `matched` entry written by a force-matching client keeps the size before the scaling
+                fills = []
             if not fills and o.size_matched:
                 # starting-price fill: single fill at the average price
                 fills = [(frac(o.simulated.average_price_matched), frac(o.simulated.size_matched))]
